@@ -446,4 +446,142 @@ theorem is_point_in_triangle_iff (p v1 v2 v3 : V2 K) (hS : area2 v1 v2 v3 ≠ 0)
 /-- non-vacuity: the unit right triangle is non-degenerate -/
 example : area2 (⟨0, 0⟩ : V2 ℚ) ⟨1, 0⟩ ⟨0, 1⟩ ≠ 0 := by unfold area2; norm_num
 
+/-! ## corollaries: counter-clockwise convex polygons; independence from start vertex and orientation -/
+
+/-- for every point `p`, the signed areas of the triangles `(a, b, p)` over the edges of a closed polygon add up to the
+polygon's shoelace area -/
+theorem sum_area2_edges (poly : List (V2 K)) (p : V2 K) :
+    ((polyEdges poly).map fun e => area2 e.1 e.2 p).sum = shoelace2 poly := by
+  have h1 : ∀ e : V2 K × V2 K, area2 e.1 e.2 p = cross e.1 e.2 + (cross e.2 p - cross e.1 p) := by
+    intro e; simp only [area2, cross]; ring
+  have hsum : ((polyEdges poly).map fun e : V2 K × V2 K => cross e.2 p - cross e.1 p).sum = 0 := by
+    have e1 : ((polyEdges poly).map fun e : V2 K × V2 K => cross e.2 p - cross e.1 p).sum =
+        (((polyEdges poly).map Prod.snd).map fun v => cross v p).sum -
+        (((polyEdges poly).map Prod.fst).map fun v => cross v p).sum := by
+      simp only [List.map_map, Function.comp_def]
+      induction polyEdges poly with
+      | nil => simp
+      | cons a t ih => simp only [List.map_cons, List.sum_cons, ih]; ring
+    rw [e1, polyEdges_eq_zip_rotate, List.map_snd_zip (by simp), List.map_fst_zip (by simp)]
+    rw [((List.rotate_perm poly 1).map _).sum_eq]; ring
+  simp only [h1]
+  have : ((polyEdges poly).map fun e : V2 K × V2 K => cross e.1 e.2 + (cross e.2 p - cross e.1 p)).sum =
+      ((polyEdges poly).map fun e : V2 K × V2 K => cross e.1 e.2).sum +
+      ((polyEdges poly).map fun e : V2 K × V2 K => cross e.2 p - cross e.1 p).sum := by
+    induction polyEdges poly with
+    | nil => simp
+    | cons a t ih => simp only [List.map_cons, List.sum_cons, ih]; ring
+  rw [this, hsum, add_zero]; rfl
+
+/-- **convex, counter-clockwise polygon** (positive shoelace area): `point_in_convex_poly2d` is true exactly for the points
+in the closed left half-plane of *every* edge — the clockwise alternative of `point_in_convex_poly2d_iff` cannot occur. -/
+theorem point_in_convex_poly2d_ccw (pt : V2 K) (poly : List (V2 K)) (hpos : 0 < shoelace2 poly) :
+    letI := fieldNum K sq
+    pointInConvexPoly2d pt poly = true ↔ ∀ e ∈ polyEdges poly, 0 ≤ area2 e.1 e.2 pt := by
+  rw [point_in_convex_poly2d_iff]
+  constructor
+  · rintro ⟨_, h | h⟩
+    · exact h
+    · exfalso
+      have := sum_area2_edges poly pt
+      have hle : ∀ l : List (V2 K × V2 K), (∀ e ∈ l, area2 e.1 e.2 pt ≤ 0) →
+          (l.map fun e => area2 e.1 e.2 pt).sum ≤ 0 := by
+        intro l
+        induction l with
+        | nil => intro _; simp
+        | cons a t ih =>
+          intro hl
+          simp only [List.map_cons, List.sum_cons]
+          have := hl a List.mem_cons_self
+          have := ih (fun e he => hl e (List.mem_cons_of_mem _ he))
+          linarith
+      have := hle _ h
+      linarith
+  · intro h
+    refine ⟨?_, Or.inl h⟩
+    rintro rfl
+    simp [shoelace2, edgeSum, polyEdges] at hpos
+
+omit [IsStrictOrderedRing K] in
+/-- the crossing number does not depend on the start vertex … -/
+theorem crossingNumber_rotate (pt : V2 K) (poly : List (V2 K)) (k : Nat) :
+    crossingNumber pt (poly.rotate k) = crossingNumber pt poly := by
+  unfold crossingNumber
+  rw [polyEdges_rotate]
+  exact (List.rotate_perm _ _).countP_eq _
+
+/-- … hence neither does `point_in_poly2d` -/
+theorem point_in_poly2d_rotate (pt : V2 K) (poly : List (V2 K)) (k : Nat) :
+    letI := fieldNum K sq
+    pointInPoly2d pt (poly.rotate k) = pointInPoly2d pt poly := by
+  have h1 := point_in_poly2d_iff sq pt (poly.rotate k)
+  have h2 := point_in_poly2d_iff sq pt poly
+  rw [crossingNumber_rotate] at h1
+  exact Bool.eq_iff_iff.mpr (h1.trans h2.symm)
+
+/-- reversing a closed polygon reverses every edge (as a multiset of directed edges) -/
+theorem polyEdges_reverse_perm {α : Type} (l : List α) :
+    (polyEdges l.reverse).Perm ((polyEdges l).map Prod.swap) := by
+  by_cases hl : l = []
+  · subst hl; simp [polyEdges]
+  have hn : 0 < l.length := List.length_pos_iff.mpr hl
+  set m := l.length - 1 % l.length with hm
+  have hmod : (m + 1) % l.length = 0 := by
+    by_cases h1 : l.length = 1
+    · rw [h1]; exact Nat.mod_one _
+    · have : 1 % l.length = 1 := Nat.mod_eq_of_lt (by omega)
+      rw [hm, this]
+      have : l.length - 1 + 1 = l.length := by omega
+      rw [this]; exact Nat.mod_self _
+  have hB : (l.rotate m).rotate 1 = l := by
+    rw [List.rotate_rotate, ← List.rotate_mod, hmod, List.rotate_zero]
+  have e1 : polyEdges l.reverse = ((polyEdges (l.rotate m)).map Prod.swap).reverse := by
+    rw [polyEdges_eq_zip_rotate, List.rotate_reverse, polyEdges_eq_zip_rotate, List.zip_swap, hB]
+    simp only [List.zip]
+    rw [List.reverse_zipWith (by simp)]
+  rw [e1, polyEdges_rotate]
+  exact (List.reverse_perm _).trans ((List.rotate_perm _ _).map _)
+
+omit [IsStrictOrderedRing K] in
+theorem crosses_symm (pt a b : V2 K) : Crosses pt a b ↔ Crosses pt b a := by
+  unfold Crosses
+  have key : ∀ a b : V2 K, a.y ≠ b.y →
+      a.x + (pt.y - a.y) * (b.x - a.x) / (b.y - a.y) = b.x + (pt.y - b.y) * (a.x - b.x) / (a.y - b.y) := by
+    intro a b h
+    have h1 : b.y - a.y ≠ 0 := sub_ne_zero.mpr (Ne.symm h)
+    have h2 : a.y - b.y ≠ 0 := sub_ne_zero.mpr h
+    field_simp
+    ring
+  constructor
+  · rintro ⟨h | h, hx⟩
+    · exact ⟨Or.inr h, by rw [← key a b (by intro hh; rw [hh] at h; exact absurd (lt_of_le_of_lt h.1 h.2) (lt_irrefl _))]; exact hx⟩
+    · exact ⟨Or.inl h, by rw [← key a b (by intro hh; rw [hh] at h; exact absurd (lt_of_le_of_lt h.1 h.2) (lt_irrefl _))]; exact hx⟩
+  · rintro ⟨h | h, hx⟩
+    · exact ⟨Or.inr h, by rw [key a b (by intro hh; rw [hh] at h; exact absurd (lt_of_le_of_lt h.1 h.2) (lt_irrefl _))]; exact hx⟩
+    · exact ⟨Or.inl h, by rw [key a b (by intro hh; rw [hh] at h; exact absurd (lt_of_le_of_lt h.1 h.2) (lt_irrefl _))]; exact hx⟩
+
+omit [IsStrictOrderedRing K] in
+/-- the crossing number does not depend on the orientation -/
+theorem crossingNumber_reverse (pt : V2 K) (poly : List (V2 K)) :
+    crossingNumber pt poly.reverse = crossingNumber pt poly := by
+  unfold crossingNumber
+  rw [(polyEdges_reverse_perm poly).countP_eq, List.countP_map]
+  apply List.countP_congr
+  intro e _
+  simp only [Function.comp, Prod.fst_swap, Prod.snd_swap, decide_eq_true_eq]
+  exact crosses_symm pt e.2 e.1
+
+/-- `point_in_poly2d` is independent of the orientation of the vertex list -/
+theorem point_in_poly2d_reverse (pt : V2 K) (poly : List (V2 K)) :
+    letI := fieldNum K sq
+    pointInPoly2d pt poly.reverse = pointInPoly2d pt poly := by
+  have h1 := point_in_poly2d_iff sq pt poly.reverse
+  have h2 := point_in_poly2d_iff sq pt poly
+  rw [crossingNumber_reverse] at h1
+  exact Bool.eq_iff_iff.mpr (h1.trans h2.symm)
+
+/-- non-vacuity: the unit square has positive shoelace area -/
+example : 0 < shoelace2 ([⟨0,0⟩, ⟨1,0⟩, ⟨1,1⟩, ⟨0,1⟩] : List (V2 ℚ)) := by
+  simp [shoelace2, edgeSum, polyEdges, cross]
+
 end C15
